@@ -89,8 +89,11 @@ func langRequest(rt *lang.Route, rq *lang.Request) *http.Request {
 	if len(rq.Body) > 0 {
 		body = bytes.NewReader(rq.Body)
 	}
+	if rq.RawBody != "" {
+		body = strings.NewReader(rq.RawBody)
+	}
 	r := httptest.NewRequest(rt.Method, "http://verif.test"+rq.Path+rq.QueryString(), body)
-	if len(rq.Body) > 0 {
+	if len(rq.Body) > 0 || rq.RawBody != "" {
 		r.Header.Set("Content-Type", "application/json")
 	}
 	for k, v := range rq.Headers {
